@@ -811,6 +811,14 @@ def compact_probes():
                                       ('load', c), ('load_many', [(127, 127, 3), (0, 0, 3), (5, 6, 3)], ()),
                                       ('store_fault', b, 11, n), ('store', c, 12), ('load', a), ('load', b), ('load', c)],
                         'probe:interrupted-store'))
+        # the same 128x128 block on different levels (bundle files differ in the level directory only)
+        out.append(({'kind': k}, [('store', (1, 1, 1, ()), 6), ('store', (1, 1, 2, ()), 7), ('store', (0, 0, 0, ()), 8),
+                                  ('load_many', [(1, 1, 1), (1, 1, 2)], ()), ('load_many', [(0, 0, 0), (1, 1, 1)], ()),
+                                  ('remove', (1, 1, 2, ())), ('load_many', [(1, 1, 2), (1, 1, 1)], ()),
+                                  ('load_many', [(1, 1, 1), (1, 1, 2)], ()),
+                                  ('store_many', [((2, 2, 1), 9), ((2, 2, 2), 10)], ()),
+                                  ('load_many', [(2, 2, 2), (2, 2, 1), (1, 1, 1)], ()), ('load', (2, 2, 1, ())),
+                                  ('load', (2, 2, 2, ()))], 'probe:same-block-other-level'))
         for pad in (0, 60, 64 + 8 * 16384 + 4, 4999):
             out.append(({'kind': k}, [('store', (255, 255, 9, ()), 6), ('store', (128, 128, 9, ()), 7),
                                       ('grow', ((128, 128, 9), pad)),
@@ -821,6 +829,24 @@ def compact_probes():
                                       ('store', (128, 128, 9, ()), 11), ('reopen',), ('load', (128, 128, 9, ())),
                                       ('load', (130, 128, 9, ())), ('load', (255, 255, 9, ()))],
                         'probe:bundle-beyond-4GiB'))
+    return out
+
+
+def layout_probes():
+    """every digit group / modulus border of the path layouts, deterministically: distinct payloads at the borders,
+    read back, half removed, read back"""
+    out = []
+    xs = [0, 1, 999, 1000, 9999, 10000, 99999, 100000, 999999, 1000000, 1999999, 9999999, 10000000, 10999999,
+          19999999, 100000000]
+    for lay in LAYOUTS:
+        z = 30 if lay == 'quadkey' else 3
+        addrs = [(x, 5, z, ()) for x in xs] + [(5, x, z, ()) for x in xs if x != 5]
+        ops = [('store', a, i % 14 + 6) for i, a in enumerate(addrs)]
+        ops.append(('load_many', [(a[0], a[1], a[2]) for a in addrs], ()))
+        ops += [('remove', a) for a in addrs[::2]]
+        ops.append(('load_many', [(a[0], a[1], a[2]) for a in addrs], ()))
+        ops += [('cached', a) for a in addrs[:6]]
+        out.append(({'kind': 'file', 'layout': lay, 'link': 'none'}, ops, 'probe:layout-borders'))
     return out
 
 
@@ -1206,6 +1232,7 @@ def run(ctx):
     todo += f4_probes()
     todo += dup_probes()
     todo += compact_probes()
+    todo += layout_probes()
 
     cfgs = all_configs()
     # 2. bounded exhaustive short histories over three colliding addresses (each from the empty state of the
